@@ -211,3 +211,78 @@ CONNECT = REG.add(Contract(
     props=("C18",),
     note="_find_nodes is used through its proved contract; add_monomer / add_node executed at the call site; the ligand molecules are other "
          "elements of topology.molecules than the host (precondition)"))
+
+
+# ---- conformance test hooks for CONNECT (vlib/selftest.py) ---------------------------------------------------------------------------
+def _spec_data(rnd, names, resids):
+    return {"resname": rnd.choice([None] + names), "resid": rnd.choice([None, None] + [float(r) for r in resids]), "mol_idx": None, "molname": None}
+
+
+def _witness_connect(rnd):
+    names = [11, 12, 13]
+    nmol = rnd.randint(2, 4)
+    mol_idx = rnd.randrange(nmol)
+    ligs = []
+    for m in range(nmol):
+        n = rnd.randint(1, 3)
+        keys = rnd.sample(range(6), n)
+        ligs.append({"nodes": {k: {"resname": rnd.choice(names), "resid": rnd.randint(1, 3)} for k in keys}, "adj": set()})
+    hn = rnd.randint(1, 4)
+    host_nodes = {i: {"resname": rnd.choice(names), "resid": i + 1, "build": True, "backmap": True, "ligated": None} for i in range(hn)}
+    hadj_ = set()
+    for i in range(hn - 1):
+        hadj_ |= {(i, i + 1), (i + 1, i)}
+    host = {"nodes": host_nodes, "adj": hadj_, "max_resid": hn}
+    defs = []
+    for _ in range(rnd.randint(0, 3)):
+        lig_idx = rnd.choice([m for m in range(nmol) if m != mol_idx])
+        defs.append((rnd.randrange(hn), lig_idx, _spec_data(rnd, names, [1, 2, 3]), _spec_data(rnd, names, [1, 2, 3])))
+    self_ = {"topology": {"molecules": ligs}, "ligand_defs": {mol_idx: defs}}
+    return {"self": self_, "molecule": host, "mol_idx": mol_idx}, {"__window__": 14, "__names__": names}
+
+
+def _adapt_connect(a):
+    import networkx as nx
+    from collections import defaultdict
+    from types import SimpleNamespace
+    from polyply.src.meta_molecule import MetaMolecule
+    from polyply.src.annotate_ligands import AnnotateLigands
+
+    def mm(d, extra=()):
+        g = nx.Graph()
+        for k, at in d["nodes"].items():
+            g.add_node(k, **{f: v for f, v in at.items() if v is not None})
+        g.add_edges_from((x, y) for x, y in d["adj"] if x < y)
+        return MetaMolecule(g)
+
+    def spec(s_):
+        out = {k: v for k, v in s_.items() if v is not None}
+        return out
+    ann = AnnotateLigands.__new__(AnnotateLigands)
+    ann.topology = SimpleNamespace(molecules=[mm(d) for d in a["self"]["topology"]["molecules"]])
+    ann.ligand_defs = defaultdict(list)
+    for k, lst in a["self"]["ligand_defs"].items():
+        ann.ligand_defs[k] = [(n, li, spec(ma), spec(la)) for n, li, ma, la in lst]
+    return {"self": ann, "molecule": mm(a["molecule"]), "mol_idx": a["mol_idx"]}
+
+
+def _unadapt_connect(ra, res):
+    host, ann, mol_idx = ra["molecule"], ra["self"], ra["mol_idx"]
+    nodes = {k: {f: d.get(f) for f in ("resname", "resid", "build", "backmap", "ligated")} for k, d in host.nodes(data=True)}
+    adj = {(a, b) for a, b in host.edges} | {(b, a) for a, b in host.edges}
+    old_keys = [k for k, d in host.nodes(data=True) if "ligated" not in d]
+    cur0 = max(old_keys) + 1
+    current = max(host.nodes) + 1
+    own, lign, wit = {}, {}, {}
+    c = cur0
+    for d, (mol_node, lig_idx, ma, la) in enumerate(ann.ligand_defs[mol_idx]):      # ghost reconstruction: definitions in order, ligand residues in node order
+        lig = ann.topology.molecules[lig_idx]
+        for x in lig.nodes:
+            if all(lig.nodes[x][key] == la[key] for key in ("resname", "resid") if key in la):
+                own[c], lign[c], wit[(d, x)] = d, x, c
+                c += 1
+    return {"molecule": {"nodes": nodes, "adj": adj, "max_resid": host.max_resid},
+            "exposes": {"cur0": cur0, "current": current, "_own": own, "_lign": lign, "_wit": wit}}
+
+
+CONNECT.witness, CONNECT.adapt, CONNECT.unadapt = _witness_connect, _adapt_connect, _unadapt_connect
